@@ -305,7 +305,7 @@ func (r *replica) readers(n int, stop chan struct{}) *sync.WaitGroup {
 					}
 				}
 				bc.GetTd(head.Hash(), num)
-				time.Sleep(50 * time.Microsecond) // keep the readers from starving the importer
+				time.Sleep(300 * time.Microsecond) // keep the readers from starving the importer
 			}
 		}(i)
 	}
